@@ -33,6 +33,7 @@ def run(project, rep):
     rep.run(S.s_r8_buildable, schema, rep)
     rep.run(S.s_r9_own_descriptor, schema, rep)
     rep.run(S.s_r10_per_class_tables, schema, rep)
+    rep.run(S.s_r6c_children_suppliable, schema, rep)
     from .. import rules_purity as E
     rep.rule("S-R11", "every exclusivity group stays in force: the class-level tables are re-iterable (E-R7)")
     rep.run(E.e_r7_reiterable_class_tables, project, rep)
